@@ -20,6 +20,8 @@
 (*          (the order itself is not part of the property), and           *)
 (*          conjunctions in ONE call: type and annotation value (t1x, t1y, *)
 (*          t2x), type and platform (t1p: nothing has a platform).         *)
+(*   na     (round 5) the artifacts of a scenario that carry no annotation *)
+(*          at all (member absent, or an empty map).                      *)
 (* Expect(stored, subj, s, f) is THE definition of the property: the       *)
 (* referrers of s under filter f are exactly the stored manifests naming s *)
 (* that match f.                                                           *)
@@ -38,7 +40,14 @@ FAnn(f) == CASE f \in {"x", "t1x", "t2x"} -> "x" [] f \in {"y", "t1y"} -> "y" []
 FPlat(f) == f = "t1p"
 IsTypeFilter(f) == FType(f) # ""
 TypeMatch(a, f) == FType(f) = "" \/ Type[a] = FType(f)
-Match(a, f) == TypeMatch(a, f) /\ (FAnn(f) = "" \/ Ann[a] = FAnn(f)) /\ ~FPlat(f)
+\* na: the artifacts of a scenario whose manifest carries NO annotation (no "annotations" member at all, or
+\* an empty map - the caller / the harness chooses which): they have no value under c10.k, match neither an
+\* annotation-value query nor the key query "k" (descriptor.Match: the key must be present), and are kept
+\* by the sorted queries (sorted last)
+AnnOf(na, a) == IF a \in na THEN "" ELSE Ann[a]
+MatchN(na, a, f) == /\ TypeMatch(a, f) /\ (FAnn(f) = "" \/ AnnOf(na, a) = FAnn(f))
+                    /\ (f = "k" => a \notin na) /\ ~FPlat(f)
+Match(a, f) == MatchN({}, a, f)
 \* subject maps: a1 and a2 name an image, only a3 may name another artifact
 SubjMaps == {m \in [Arts -> Subj] : m["a1"] # "a1" /\ m["a2"] # "a1"}
 
@@ -67,5 +76,6 @@ ConfSpace(Modes, Caches, Pages, TagDels, SubjSel, Spells, Dopts) ==
 
 Range(s) == {s[i] : i \in 1..Len(s)}
 HasDup(s) == \E i, j \in 1..Len(s) : i < j /\ s[i] = s[j]
-Expect(stored, subj, s, f) == {a \in stored : subj[a] = s /\ Match(a, f)}
+ExpectN(stored, subj, na, s, f) == {a \in stored : subj[a] = s /\ MatchN(na, a, f)}
+Expect(stored, subj, s, f) == ExpectN(stored, subj, {}, s, f)
 =============================================================================
